@@ -12,6 +12,7 @@ import hashlib
 import json
 import os
 import random
+import re
 import shutil
 import signal
 import sqlite3
@@ -22,6 +23,19 @@ import time
 from .common import vec, InfraError
 
 _real_connect = sqlite3.connect
+
+# any statement that writes rows of table `individuals` (the upsert, or UPDATE / INSERT / REPLACE spelled separately)
+WRITE_RE = re.compile(r"^\s*(INSERT|REPLACE|UPDATE)\b[^;]*\bindividuals\b", re.I | re.S)
+
+
+def id_and_text(row):
+    """(id, stored text) of one parameter row of a write statement, whatever the order of the placeholders."""
+    vals = list(row.values()) if isinstance(row, dict) else list(row)
+    ints = [x for x in vals if isinstance(x, int) and not isinstance(x, bool)]
+    strs = [x for x in vals if isinstance(x, (str, bytes))]
+    if len(ints) == 1 and len(strs) == 1:
+        return ints[0], strs[0] if isinstance(strs[0], str) else strs[0].decode()
+    return None
 
 
 def blob_hash(text):
@@ -85,12 +99,17 @@ def install_proxy(rec, contend=None):
                 contend["left"] -= 1
 
     def logged_execute(no, fn, sql, a, many=False, db_path=None):
-        if sql.lstrip().upper().startswith("INSERT INTO INDIVIDUALS"):
+        write = WRITE_RE.match(sql) is not None
+        if write:
             if not many and db_path:
                 maybe_contend(db_path)
-            rows = list(a[0]) if many else [a[0]]
-            tags = ["upsert %d %d %d" % (no, r[0], blob_hash(r[1])) for r in rows]
-            a = (rows,) if many else a
+            rows = list(a[0]) if many else [a[0] if a else ()]
+            keyed = [id_and_text(r) for r in rows]
+            if all(k is not None for k in keyed):
+                tags = ["upsert %d %d %d" % (no, k[0], blob_hash(k[1])) for k in keyed]
+            else:
+                tags = ["unmodelled %d %s" % (no, sql.split()[0])]
+            a = (rows,) + tuple(a[1:]) if many else a
         elif sql.lstrip().upper().startswith("PRAGMA"):
             tags = ["pragma %d" % no]
         else:
@@ -109,6 +128,14 @@ def install_proxy(rec, contend=None):
                 rec.tick("journal-mode %d %s" % (no, mode[0][0] if mode else "?"))
             except sqlite3.Error:
                 pass
+        if write:
+            # a statement that changed no row (UPDATE of an id that is not there yet) is no write; for a batch only the
+            # total is known
+            n = getattr(getattr(fn, "__self__", None), "rowcount", -1)
+            if n == 0:
+                tags = ["noeffect %d" % no for _ in tags]
+            elif many and 0 < n < len(tags):
+                tags = ["unmodelled %d %s" % (no, sql.split()[0])]
         for t in tags:
             rec.tick("post-" + t)
         return r
@@ -320,6 +347,10 @@ def model_events(evs):
     inflight = []
     rolled = set()
     pend = {}
+    for e in evs:
+        if e[0] == "post-unmodelled":
+            raise RuntimeError("the writer changed table `individuals` with a statement the crash model has no event for "
+                               "(%s on connection %s): the trace cannot be related to Model/Crash.lean" % (e[2], e[1]))
     for i, e in enumerate(evs):
         if e[0] == "post-upsert":
             pend.setdefault(e[1], []).append(i)
